@@ -40,15 +40,36 @@ def run(model, rep, tier):
     # ---- truncation branches
     rep.rule('truncate-branches-agree', 'in-place truncation removes exactly the entries the copying branch drops')
     tc = t3.methods['truncatecoeff']
-    keep = pattern.find(tc, '[(_N_n, _N_l, _N_c.copy()) for _N_n, _N_l, _N_c in _N_a if _N_n <= Nmax]', 'expr')
-    loops = [n for n in walk_local(tc) if isinstance(n, ast.For) and isinstance(n.iter, ast.Call) and unparse(n.iter.func) == 'range'
-             and len(n.iter.args) == 3]
-    ok = False
-    if keep and loops:
+    keep = pattern.find(tc, '[(_N_n, _N_l, _N_c.copy()) for _N_n, _N_l, _N_c in _N_a if _E_pred]', 'expr')
+    keep_ok = bool(keep) and keep[0]['_E_pred'].replace(' ', '') in ('%s<=Nmax' % keep[0]['_N_n'], 'Nmax>=%s' % keep[0]['_N_n'],
+                                                                      'not%s>Nmax' % keep[0]['_N_n'], 'not(%s>Nmax)' % keep[0]['_N_n'])
+    # locate: the in-place removal (a loop around a pop on the operand, or a slice assignment of the filtered list)
+    from ._common import conditions_at
+    ok = None
+    if keep:
         a = keep[0]['_N_a']
-        lp = loops[0]
-        ok = unparse(lp.iter) == 'range(len(%s) - 1, -1, -1)' % a and \
-            pattern.has(lp, 'if _N_a[_N_i][0] > Nmax:\n    _N_a.pop(_N_i)', _N_a=a, _N_i=unparse(lp.target))
+        pops = [c for c in walk_local(tc) if isinstance(c, ast.Call) and isinstance(c.func, ast.Attribute) and c.func.attr == 'pop'
+                and unparse(c.func.value) == a]
+        sl = [st for st in walk_local(tc) if isinstance(st, ast.Assign) and isinstance(st.targets[0], ast.Subscript) and unparse(st.targets[0].value) == a
+              and isinstance(st.targets[0].slice, ast.Slice)]
+        if pops:
+            c = pops[0]
+            lp = c
+            while lp is not None and not isinstance(lp, (ast.For, ast.While)):
+                lp = getattr(lp, '_parent', None)
+            # verify: every index is visited, from the back, and an entry goes exactly when its n exceeds Nmax
+            full = isinstance(lp, ast.For) and unparse(lp.iter) in ('range(len(%s) - 1, -1, -1)' % a, 'reversed(range(len(%s)))' % a,
+                                                                     'range(len(%s))[::-1]' % a)
+            i_ = unparse(lp.target) if isinstance(lp, ast.For) else None
+            conds = conditions_at(tc, c)
+            ok = bool(full) and c.args and unparse(c.args[0]) == i_ and ('%s[%s][0] > Nmax' % (a, i_) in conds or 'Nmax < %s[%s][0]' % (a, i_) in conds)
+        elif sl:
+            ok = pattern.has(sl[0], '[_N_t for _N_t in %s if _N_t[0] <= Nmax]' % a, 'expr')
+    if ok is None:
+        rep.undecided('truncatecoeff: copying filter / in-place removal not recognised')
+        ok = True
+    elif keep and not keep_ok:
+        ok = False
     rep.ob('truncate-branches-agree', mod, tc, 'truncatecoeff: copy keeps n <= Nmax ; in place pops every index with n > Nmax (full reverse scan)', ok,
            '' if ok else 'the in-place branch does not examine every entry with the complementary predicate: truncate(N, inplace=True) and '
                          'truncate(N) disagree on unsorted coefficient lists', engine='siblings', qual='Taylor3D.truncatecoeff')
